@@ -36,7 +36,7 @@ func ustr(s string) string {
 
 func hexAlways(s string) string { return strings.ToUpper(hex.EncodeToString([]byte(s))) }
 
-var classAlphabet = []string{"a", "A", "F", "0", " ", "\"", "'", "=", "\\", "?", "\x01", "\x7f", "\x80", "\xff"}
+var classAlphabet = []string{"a", "A", "F", "0", " ", "\"", "'", "=", "\\", "?", "\x01", "\x7f", "\x80", "\xff", ",", ")", "(", ":"}
 
 // inDomain applies the stated exclusions: values that begin or end with a
 // quote character or end in a backslash are normalised by design.
